@@ -29,34 +29,47 @@ def scenario(name, keys, fills=()):
                    "hit": hit, "top": idx[ks[-1]]})
     alias = []
     for k in keys:
-        j = 1
-        while k - j * W > 0:
-            a = k - j * W
-            if a in idx:
+        for a in keys:
+            if a < k and (k - a) % W == 0:
                 alias.append([idx[k], idx[a]])
-            else:
-                assert a not in fillkeys, "alias of a token must be a token"
-            j += 1
+        # a key that is a multiple of 2^32 above a bulk-fill key must be a token's alias, not a stranger's
+        for (base, n, stride) in fills:
+            d = (k - base) % W
+            if k - base >= W and d % stride == 0 and d // stride < n:
+                assert base + d in idx, "alias of a token must be a token"
     assert 0 not in keys
     return {"name": name, "keys": keys, "fills": fl, "alias": alias, "cost": sum(f["n"] for f in fl)}
 
 
 def scenarios():
-    sc = []
-    # no bulk load: one young section, keys below its start, far keys, keys 2^32 and 2^33 above
-    sc.append(scenario("plain", [B - 7, B, B + 1, B + 2, B + W, B + W + 1, B + 2 * W, (1 << 63) + 11]))
+    """name -> scenario; the `-alias` variants add token keys a multiple of 2^32 above other tokens
+    (kept apart so that most executions are judged without the C05-key-alias deviation)"""
+    sc = {}
+
+    def both(name, keys, alias_keys, fills=()):
+        sc[name] = scenario(name, keys, fills)
+        sc[name + "-alias"] = scenario(name + "-alias", keys + alias_keys, fills)
+    # no bulk load: one young section, keys below its start, close and far keys
+    both("plain", [B - 7, B, B + 1, B + 2, B + 130, B + W - 1, (1 << 63) + 11], [B + W, B + W + 1, B + 2 * W])
     # 200 ascending keys with gaps: early gap keys go to the overflow list, late gap keys are
     # inserted inside the 128-entry look-back window, keys above extend the section
-    sc.append(scenario("ovf", [B - 7, B, B + 1, B + 4, B + 5, B + 4 * 190 + 1, B + 4 * 199, B + 800,
-                               B + W + 1, B + W + 4], fills=[(B, 200, 4)]))
+    both("ovf", [B - 7, B, B + 1, B + 4, B + 5, B + 4 * 190 + 1, B + 4 * 199, B + 800, B + W - 1],
+         [B + W + 1, B + W + 4], fills=[(B, 200, 4)])
     # a full section (batch entries): gap keys overflow, the key after `end` opens a new section
-    sc.append(scenario("full", [B - 7, B, B + 1, B + 2, B + 3, B + 2 * (BATCH - 1), B + 2 * BATCH - 1,
-                                B + 2 * BATCH + 5, B + W + 1], fills=[(B, BATCH, 2)]))
+    both("full", [B - 7, B, B + 1, B + 2, B + 3, B + 2 * (BATCH - 1), B + 2 * BATCH - 1, B + 2 * BATCH + 5],
+         [B + W + 1], fills=[(B, BATCH, 2)])
     # two sections: a full one followed by a young one; keys between them, gap keys in the second
     s2 = B + BATCH + 50
-    sc.append(scenario("two", [B + 5, B + BATCH - 1, B + BATCH, s2, s2 + 1, s2 + 3 * 295 + 1, s2 + 3 * 299,
-                               s2 + 3 * 300, s2 + W + 1], fills=[(B, BATCH, 1), (s2, 300, 3)]))
+    both("two", [B + 5, B + BATCH - 1, B + BATCH, s2, s2 + 1, s2 + 3 * 295 + 1, s2 + 3 * 299, s2 + 3 * 300],
+         [s2 + W + 1], fills=[(B, BATCH, 1), (s2, 300, 3)])
     return sc
+
+
+# key choices for the 3-key TLC histories (by real key), besides random ones
+FOCUS = {"plain": [[B, B + 1, B + 2], [B - 7, B + 1, B + W - 1], [B + 2, B + 1, B]],
+         "plain-alias": [[B, B + 1, B + W], [B, B + W, B + 2 * W], [B - 7, B + 1, B + W + 1]],
+         "ovf": [[B + 1, B + 4, B + 5], [B + 5, B + 1, B + 761], [B + 4, B + 796, B + 800]],
+         "ovf-alias": [[B + 1, B + 4, B + W + 1], [B, B + 4, B + W + 4], [B + 1, B + 5, B + W + 1]]}
 
 
 def offsets(five):
@@ -66,8 +79,8 @@ def offsets(five):
     return [5, (1 << 32) - 1, 9, 1 << 31]
 
 
-def emit(f, sc, kind, offs, ops):
-    f.write(json.dumps({"ev": "reset", "kind": kind, "sc": sc["name"], "keys": [str(k) for k in sc["keys"]],
+def emit(f, sc, kind, offs, ops, build):
+    f.write(json.dumps({"ev": "reset", "build": build, "kind": kind, "sc": sc["name"], "keys": [str(k) for k in sc["keys"]],
                         "offs": [str(o) for o in offs], "pairs": sc["alias"]}) + "\n")
     for e in sc["fills"]:
         f.write(json.dumps(e) + "\n")
@@ -154,7 +167,7 @@ def run(ctx):
     rng = random.Random(ctx.seed)
     # ---- 1. layer A: the reference map and its counters, every history up to the bound
     mc = ctx.instance("MC_NeedleMap", "NeedleMapSpec", "NeedleMapSpec_mc.cfg",
-                      {"NKeys": 3 if th else 2, "Offs": {0, 1}, "Sizes": {3, 5}, "MaxOps": 4, "Reachable": False})
+                      {"NKeys": 3 if th else 2, "Offs": {0, 1}, "Sizes": {3, 5}, "MaxOps": 4 if th else 3, "Reachable": False})
     ctx.model_check(mc, workers=4, label="layer A: counters = live set, replay rebuilds map and counters")
     # ---- 2. layer B: compact_map.go (sections, look-back insertion, overflow, uint32 wrap) refines layer A
     kfb = set(ctx.kf_open.keys())
@@ -186,21 +199,23 @@ def run(ctx):
                           {"NKeys": K, "Offs": {0, 1}, "Sizes": {3, 5}, "MaxOps": 14, "Reachable": False})
         h_sim = ctx.generate(g3, simulate=1500, depth=15)
     ctx.notes["histories"] = {"G1_all_len3": len(h_all), "G2_witnesses": len(h_wit), "G3_random_walks": len(h_sim)}
-    scs = {s["name"]: s for s in scenarios()}
+    scs = scenarios()
     builds = [("default", ("verif",), False), ("5BytesOffset", ("verif", "5BytesOffset"), True)]
     total_rejected = 0
-    focus = {"plain": [[1, 2, 4], [1, 4, 6], [0, 2, 5]], "ovf": [[2, 3, 8], [1, 4, 5], [2, 5, 7]]}
-    light = [scs["plain"], scs["ovf"]]
+    light = [scs["plain"], scs["ovf"]] * 4 + [scs["plain-alias"], scs["ovf-alias"]]   # 20 % with alias tokens
     for bname, tags, five in builds:
         offs = offsets(five)
         script = os.path.join(ctx.out, "script-%s.ndjson" % bname)
-        scale = 8 if th else (0.5 if five else 1)
+        scale = 8 if th else (0.35 if five else 0.7)
         # executions per kind: (TLC histories of length 3, TLC witnesses, random long histories)
         plan = {"cm": (400, 150, 80), "mem": (150, 100, 60), "sorted": (60, 60, 40), "ldb": (40, 40, 20),
                 "memdb": (60, 40, 20)}
         n_exec = 0
         if ctx.replay:
-            script = ctx.replay
+            script = ctx.replay     # a saved execution names the build it was recorded with
+            with open(script) as f:
+                if json.loads(f.readline()).get("build", bname) != bname:
+                    continue
         else:
             with open(script, "w") as f:
                 for kind0, (n1, n2, n3) in plan.items():
@@ -213,23 +228,26 @@ def run(ctx):
                     for h in hs:
                         sc = rng.choice(light)
                         # fixed key choices that include an alias pair, or any three token keys
-                        km = rng.choice(focus[sc["name"]]) if rng.random() < 0.6 else rng.sample(range(len(sc["keys"])), K)
-                        emit(f, sc, kind, offs, adapt(h, kind, km, rng, freeze))
+                        if rng.random() < 0.6:
+                            km = [sc["keys"].index(k) for k in rng.choice(FOCUS[sc["name"]])]
+                        else:
+                            km = rng.sample(range(len(sc["keys"])), K)
+                        emit(f, sc, kind, offs, adapt(h, kind, km, rng, freeze), bname)
                         n_exec += 1
                     for i in range(n3):
                         sc = rng.choice(light)
                         h = random_hist(rng, len(sc["keys"]), len(offs), rng.choice([8, 16, 30]), i % 2 == 0)
-                        emit(f, sc, kind, offs, adapt(h, kind, list(range(len(sc["keys"]))), rng, freeze))
+                        emit(f, sc, kind, offs, adapt(h, kind, list(range(len(sc["keys"]))), rng, freeze), bname)
                         n_exec += 1
                 # heavy scenarios: full sections (100 000 entries each), long random histories
                 for kind, n in (("cm", 48 if th else 6), ("mem", 24 if th else 2), ("ldb", 4 if th else 1)):
                     if five and not th:
                         n = (n + 1) // 2
                     for i in range(n):
-                        sc = scs["full"] if i % 2 == 0 else scs["two"]
+                        sc = scs[("full" if i % 2 == 0 else "two") + ("-alias" if i % 4 >= 2 else "")]
                         h = random_hist(rng, len(sc["keys"]), len(offs), 24, i % 3 == 0)
                         emit(f, sc, kind, offs, adapt(h, kind, list(range(len(sc["keys"]))), rng,
-                                                      kind == "mem" and i % 4 == 3))
+                                                      kind == "mem" and i % 4 == 3), bname)
                         n_exec += 1
         binp = ctx.build("c05", tags=tags)
         trace = drive_parallel(ctx, binp, script, "trace-" + bname, 4)
